@@ -13,8 +13,8 @@ V=$(cd "$(dirname "$(readlink -f "$0")")/.." && pwd)
 name=$(basename $(dirname "$M"))-$(basename "$M")
 WT=/tmp/seedwt-$name-$$
 OUT=/tmp/seedout-$name-$$
-git -C /repo worktree add -q --detach $WT HEAD || exit 2
-cleanup() { git -C /repo worktree remove --force $WT 2>/dev/null; rm -rf $OUT $V/.bin/alt-$(echo "$WT" | md5sum | cut -c1-12); }
+flock /tmp/seedtest.lock git -C /repo worktree add -q --detach $WT HEAD || exit 2
+cleanup() { flock /tmp/seedtest.lock git -C /repo worktree remove --force $WT 2>/dev/null; rm -rf $OUT $V/.bin/alt-$(echo "$WT" | md5sum | cut -c1-12); }
 trap cleanup EXIT
 suite() { local rc=0; for m in bigtable storage; do (cd $WT/$m && go build ./... && go test -vet=off -count=1 -timeout 25m ./... > $OUT.$m.log 2>&1) || rc=1; done; return $rc; }
 demo() { # copies demo files in, runs, removes them; returns go test status
